@@ -6,6 +6,7 @@ import (
 	"context"
 	"io"
 	"net"
+	"sync"
 	"time"
 
 	"go.uber.org/zap"
@@ -252,6 +253,7 @@ func vNewClient(conn net.Conn, version int, compression proto.Compression, metho
 // VerifServer is a scripted ClickHouse endpoint for harnesses outside this package (chpool):
 // every dial yields a fresh simulated connection that answers the hello and then Pongs.
 type VerifServer struct {
+	mu    sync.Mutex // dials may come from several goroutines (C12)
 	conns []*vConn
 }
 
@@ -272,7 +274,9 @@ func (s *VerifServer) DialContext(ctx context.Context, network, address string) 
 	}
 	c := vNewConn(script.b)
 	c.maxIdle = 1
+	s.mu.Lock()
 	s.conns = append(s.conns, c)
+	s.mu.Unlock()
 	return c, nil
 }
 
